@@ -220,11 +220,12 @@ Example C30_refuted_D24 :
   let c := self_a [] [99] [] [] [] [] false [OItAddGlobal 1 i32g [IVal (VI32 1)]; OAddImpGlobal 2 i32g] [(SG, 0)] in
   agree c = true /\ ao_rets c = [Some 0; Some 0] /\ dom_of (verdict30 c) = true /\ holds_of (verdict30 c) = false /\ known_D24 c = true.
 Proof. vm_compute. repeat split; reflexivity. Qed.
-(* D06: an added imported global that is deleted again still occupies index 0: `global.get 0` of the local global
-   is emitted as `global.get 1` *)
-Example C30_refuted_D06 :
+(* former D06 (an added imported global that was deleted again still occupied index 0: `global.get 0` of the local
+   global was emitted as `global.get 1`; repaired: recalculate_ids drops every deleted item): the witness now
+   satisfies the property *)
+Example C30_former_D06_witness_holds :
   let c := self_a [] [99] [(1, mkGP i32g (Some [IVal (VI32 5)]))] [] [] [] false [OAddImpGlobal 2 i32g; ODelete SG 1] [(SG, 0)] in
-  agree c = true /\ dom_of (verdict30 c) = true /\ holds_of (verdict30 c) = false /\ known_D06 c = true.
+  agree c = true /\ dom_of (verdict30 c) = true /\ holds_of (verdict30 c) = true.
 Proof. vm_compute. repeat split; reflexivity. Qed.
 (* class 300: a global requested with DataType::FuncRef (the parser's name for (ref func)) is emitted as funcref *)
 Example C30_refuted_300 :
